@@ -38,7 +38,7 @@ SPECTRUM_REASONS = ('NO_SPECTRUM', 'NOT_ENOUGH_RESERVED_SPECTRUM')
 
 def plan(tier, seed):
     n = 40 if tier == 'quick' else 700
-    return [{'idx': i, 'kind': 'sat' if i % 2 else 'plain'} for i in range(n)]
+    return [{'idx': i, 'kind': ['plain', 'sat', 'plain', 'sat', 'p2p'][i % 5]} for i in range(n)]
 
 
 def digest_network(network):
@@ -102,8 +102,12 @@ def build(rng, kind):
     voy = next(t for t in ej['Transceiver'] if t['type_variety'] == 'Voyager')
     voy['mode'].append({'format': 'impossible', 'baud_rate': 32e9, 'OSNR': 45, 'bit_rate': 100e9, 'roll_off': 0.15,
                         'tx_osnr': 40, 'min_spacing': 37.5e9, 'cost': 1})
-    tj, _ = G.gen_topology(rng, n_sites=rng.randint(2, 4), max_spans=3, whole_km=True, max_km=110,
-                           user_amps=rng.random() < 0.5)
+    if kind == 'p2p':
+        # point-to-point line without ROADMs, both directions
+        tj = G.gen_p2p(rng, both=True, max_km=110)
+    else:
+        tj, _ = G.gen_topology(rng, n_sites=rng.randint(2, 4), max_spans=3, whole_km=True, max_km=110,
+                               user_amps=rng.random() < 0.5)
     equipment = G.make_equipment(ej)
     network = G.make_network(tj, equipment)
     SimParams.set_params({})
@@ -117,6 +121,8 @@ def gen_batch(rng, trx, sites_of):
     for i in range(n):
         a, z = rng.sample(trx, 2)
         kind = G.pick(rng, ['fixed', 'fixed', 'auto', 'dense', 'hot', 'impossible', 'strict-unsat', 'bidir'])
+        if kind == 'strict-unsat' and not sites_of:
+            kind = 'bidir'
         kw = dict(trx_type='Voyager', trx_mode=G.pick(rng, ['mode 1', 'mode 2', 'mode 3', 'mode 4']),
                   spacing=G.pick(rng, [75e9, 87.5e9]), max_nb=G.pick(rng, [None, 20, 40]))
         if kind == 'auto':
@@ -149,9 +155,12 @@ def gen_batch(rng, trx, sites_of):
 def run_case(case, ctx):
     rng = ctx.rng
     ej, tj, equipment, network = build(rng, case['kind'])
-    model = S.SiteModel(network)
-    trx = sorted(model.roadm_of)
-    batch = gen_batch(rng, trx, model.roadm_of)
+    if case['kind'] == 'p2p':
+        trx, sites_of = ['trx A', 'trx B'], {}
+    else:
+        model = S.SiteModel(network)
+        trx, sites_of = sorted(model.roadm_of), model.roadm_of
+    batch = gen_batch(rng, trx, sites_of)
     kinds = {r['request-id']: r.pop('_kind') for r in batch}
     ids = [r['request-id'] for r in batch]
     base_digest = digest_network(network)
